@@ -116,6 +116,9 @@ FileSysRow(r) ==
                    ELSE {<<"C15", "SysMetaNotSyncedBeforeRename", E>>})
              \cup (IF \E i \in Idx("fsync", "parent") : i > ri /\ i < ret THEN {} ELSE {<<"C15", "SysParentNotSyncedAfterRename", E>>})
              \cup (IF Last("fsync", "state") > Last("write", "meta") THEN {<<"C15", "SysFinalMetaBeforeStateSync", E>>} ELSE {})
+             \* retention removes older snapshots only after the new one is durable (parent synced after the rename)
+             \cup (IF \A i \in 1..Len(E) : (E[i][1] = "unlink" /\ i > ri) => \E j \in Idx("fsync", "parent") : j > ri /\ j < i THEN {}
+                   ELSE {<<"C15", "SysReapBeforeParentSync", E>>})
            ELSE (IF ri = 0 THEN {} ELSE {<<"C15", "SysCancelRenamed", E>>})
                 \cup (IF Idx("unlink", "dir") # {} THEN {} ELSE {<<"C15", "SysCancelLeftDirectory", E>>})
   IN Judge(V, {})
@@ -137,6 +140,10 @@ NetTransRow(r) ==
            \cup {<<"C16", "HandlerErrorLostOrChanged", <<r.case, e.tag>>>> :
                e \in {x \in replies : Has2(x, "err") /\ \E y \in rets : y.tag = x.tag /\
                          (~Has2(y, "err") \/ (y.err # x.err /\ ~\E i \in 1..Len(r.ops) : r.ops[i].fault \in {"cutreq", "cutresp"}))}}
+           \* without a connection fault every exchange returns what its handler produced: an error only if the handler gave one
+           \cup {<<"C16", "ErrorWithoutFault", <<r.case, e.tag, e.err>>>> :
+               e \in {x \in rets : Has2(x, "err") /\ (\A i \in 1..Len(r.ops) : r.ops[i].fault \notin {"cutreq", "cutresp"})
+                                   /\ ~\E p \in replies : p.tag = x.tag /\ Has2(p, "err")}}
            \cup {<<"C16", "DeliveredTwice", <<r.case, e.tag>>>> :
                e \in {x \in recvs : Cardinality({y \in recvs : y.tag = x.tag}) > 1}}
            \cup {<<"C16", "PipelineOutOfOrder", <<r.case, e.tag>>>> :
